@@ -1,3 +1,209 @@
-import LibconfigModel.WF
+import LibconfigModel.Step
+/-
+  C07 — typed get/set follow the documented conversion rules.  For every stored
+  type, stored value, requested type and setting of auto-convert, as equations.
+-/
 namespace Libconfig.C07
+
+/-! ### getters: the complete table -/
+
+theorem C07_get_int (auto : Bool) (n : Node) :
+    n.getInt auto =
+      if n.ty = T_INT then some n.ival
+      else if n.ty = T_INT64 then (if fits32 n.ival then some n.ival else none)
+      else if n.ty = T_FLOAT then
+        (if auto then some (if floatCastOk32 n.fval then F64.trunc n.fval else INT_MIN) else none)
+      else none := by
+  unfold Node.getInt; simp only [beq_iff_eq]
+
+theorem C07_get_int64 (auto : Bool) (n : Node) :
+    n.getInt64 auto =
+      if n.ty = T_INT64 then some n.ival
+      else if n.ty = T_INT then some n.ival
+      else if n.ty = T_FLOAT then
+        (if auto then some (if floatCastOk64 n.fval then F64.trunc n.fval else LLONG_MIN) else none)
+      else none := by
+  unfold Node.getInt64; simp only [beq_iff_eq]
+
+theorem C07_get_float (auto : Bool) (n : Node) :
+    n.getFloat auto =
+      if n.ty = T_FLOAT then some n.fval
+      else if n.ty = T_INT ∨ n.ty = T_INT64 then (if auto then some (F64.ofInt n.ival) else none)
+      else none := by
+  unfold Node.getFloat; simp only [beq_iff_eq]
+  by_cases h1 : n.ty = T_FLOAT <;> by_cases h2 : n.ty = T_INT <;> by_cases h3 : n.ty = T_INT64 <;> simp [h1, h2, h3]
+
+/-- booleans and strings never convert -/
+theorem C07_get_bool (n : Node) : n.getBool = if n.ty = T_BOOL then n.ival else 0 := by
+  unfold Node.getBool; simp only [beq_iff_eq]
+
+theorem C07_get_string (n : Node) : n.getString = if n.ty = T_STRING then n.sval else none := by
+  unfold Node.getString; simp only [beq_iff_eq]
+
+/-- a 64-bit value is readable as `int` exactly when it fits -/
+theorem C07_int64_as_int (auto : Bool) (n : Node) (h : n.ty = T_INT64) :
+    (n.getInt auto).isSome = fits32 n.ival := by
+  rw [C07_get_int]; simp [h]; split <;> simp_all
+
+/-- without auto-conversion floats and integers never convert -/
+theorem C07_no_autoconvert (n : Node) :
+    (n.ty = T_FLOAT → n.getInt false = none ∧ n.getInt64 false = none) ∧
+    ((n.ty = T_INT ∨ n.ty = T_INT64) → n.getFloat false = none) := by
+  constructor
+  · intro h; simp [C07_get_int, C07_get_int64, h, T_FLOAT, T_INT, T_INT64]
+  · intro h; rw [C07_get_float]; rcases h with h | h <;> simp [h, T_FLOAT, T_INT, T_INT64]
+
+/-! ### setters: type never changes (except from NONE), mismatches fail -/
+
+theorem C07_set_int (auto : Bool) (n : Node) (v : Int) :
+    n.setInt auto v =
+      if n.ty = T_NONE then some { n with ty := T_INT, ival := v }
+      else if n.ty = T_INT ∨ n.ty = T_INT64 then some { n with ival := v }
+      else if n.ty = T_FLOAT then (if auto then some { n with fval := F64.ofInt v } else none)
+      else none := by
+  unfold Node.setInt; simp only [beq_iff_eq]
+  by_cases h0 : n.ty = T_NONE <;> by_cases h1 : n.ty = T_INT <;> by_cases h2 : n.ty = T_INT64 <;> simp [h0, h1, h2]
+
+theorem C07_set_int64 (auto : Bool) (n : Node) (v : Int) :
+    n.setInt64 auto v =
+      if n.ty = T_NONE then some { n with ty := T_INT64, ival := v }
+      else if n.ty = T_INT64 then some { n with ival := v }
+      else if n.ty = T_INT then (if fits32 v then some { n with ival := v } else none)
+      else if n.ty = T_FLOAT then (if auto then some { n with fval := F64.ofInt v } else none)
+      else none := by
+  unfold Node.setInt64; simp only [beq_iff_eq]
+
+theorem C07_set_bool (n : Node) (v : Int) :
+    n.setBool v =
+      if n.ty = T_NONE then some { n with ty := T_BOOL, ival := v }
+      else if n.ty = T_BOOL then some { n with ival := v } else none := by
+  unfold Node.setBool; simp only [beq_iff_eq]
+
+theorem C07_set_string (n : Node) (s : Option Bytes) :
+    n.setString s =
+      if n.ty = T_NONE then some { n with ty := T_STRING, sval := s }
+      else if n.ty = T_STRING then some { n with sval := s } else none := by
+  unfold Node.setString; simp only [beq_iff_eq]
+
+/-- a successful set never changes the type of a typed setting -/
+theorem C07_set_keeps_type (auto : Bool) (n n' : Node) (hty : n.ty ≠ T_NONE) :
+    (∀ v, n.setInt auto v = some n' → n'.ty = n.ty) ∧
+    (∀ v, n.setInt64 auto v = some n' → n'.ty = n.ty) ∧
+    (∀ b, n.setFloat auto b = some n' → n'.ty = n.ty) ∧
+    (∀ v, n.setBool v = some n' → n'.ty = n.ty) ∧
+    (∀ s, n.setString s = some n' → n'.ty = n.ty) := by
+  refine ⟨?_, ?_, ?_, ?_, ?_⟩ <;> intro v h
+  · unfold Node.setInt at h; simp only [beq_iff_eq] at h
+    split at h; · contradiction
+    split at h; · cases h; rfl
+    split at h; · cases h; rfl
+    split at h
+    · split at h <;> cases h; rfl
+    · cases h
+  · unfold Node.setInt64 at h; simp only [beq_iff_eq] at h
+    split at h; · contradiction
+    split at h; · cases h; rfl
+    split at h; · split at h <;> cases h; rfl
+    split at h
+    · split at h <;> cases h; rfl
+    · cases h
+  · unfold Node.setFloat at h; simp only [beq_iff_eq] at h
+    split at h; · contradiction
+    split at h; · cases h; rfl
+    split at h; · split at h <;> cases h; rfl
+    split at h
+    · split at h <;> cases h; rfl
+    · cases h
+  · unfold Node.setBool at h; simp only [beq_iff_eq] at h
+    split at h; · contradiction
+    split at h <;> cases h; rfl
+  · unfold Node.setString at h; simp only [beq_iff_eq] at h
+    split at h; · contradiction
+    split at h <;> cases h; rfl
+
+/-! ### a value that was stored is the value read back -/
+
+theorem C07_set_get_int (auto : Bool) (n n' : Node) (v : Int)
+    (hty : n.ty = T_NONE ∨ n.ty = T_INT ∨ n.ty = T_INT64)
+    (h : n.setInt auto v = some n') : n'.getInt64 auto = some v ∧ (fits32 v = true → n'.getInt auto = some v) := by
+  rw [C07_set_int] at h
+  rcases hty with h0 | h1 | h2
+  · simp [h0] at h; subst h; simp [C07_get_int, C07_get_int64]
+  · simp [h1] at h; subst h; simp [C07_get_int, C07_get_int64, h1]
+  · simp [h2] at h; subst h; simp [C07_get_int, C07_get_int64, h2]
+
+theorem C07_set_get_int64 (auto : Bool) (n n' : Node) (v : Int)
+    (hty : n.ty = T_NONE ∨ n.ty = T_INT ∨ n.ty = T_INT64)
+    (h : n.setInt64 auto v = some n') : n'.getInt64 auto = some v := by
+  rw [C07_set_int64] at h
+  rcases hty with h0 | h1 | h2
+  · simp [h0] at h; subst h; simp [C07_get_int64]
+  · have hne : ¬ n.ty = T_INT64 := by rw [h1]; decide
+    have hne0 : ¬ n.ty = T_NONE := by rw [h1]; decide
+    rw [if_neg hne0, if_neg hne, if_pos h1] at h
+    by_cases hf : fits32 v = true
+    · rw [if_pos hf] at h; cases h; simp [C07_get_int64, h1, T_INT, T_INT64]
+    · rw [if_neg hf] at h; cases h
+  · simp [h2] at h; subst h; simp [C07_get_int64, h2]
+
+theorem C07_set_get_float (auto : Bool) (n n' : Node) (b : Nat)
+    (hty : n.ty = T_NONE ∨ n.ty = T_FLOAT) (h : n.setFloat auto b = some n') :
+    n'.getFloat auto = some b := by
+  unfold Node.setFloat at h; simp only [beq_iff_eq] at h
+  rcases hty with h0 | h1
+  · simp [h0] at h; subst h; simp [C07_get_float]
+  · simp [h1] at h; subst h; simp [C07_get_float, h1]
+
+theorem C07_set_get_bool (n n' : Node) (v : Int) (h : n.setBool v = some n') : n'.getBool = v := by
+  rw [C07_set_bool] at h; split at h
+  · cases h; simp [C07_get_bool]
+  · split at h
+    · cases h; simp_all [C07_get_bool]
+    · cases h
+
+theorem C07_set_get_string (n n' : Node) (s : Option Bytes) (h : n.setString s = some n') :
+    n'.getString = s := by
+  rw [C07_set_string] at h; split at h
+  · cases h; simp [C07_get_string]
+  · split at h
+    · cases h; simp_all [C07_get_string]
+    · cases h
+
+/-- a 64-bit set into an `int` setting succeeds exactly when the value fits -/
+theorem C07_int64_into_int (auto : Bool) (n : Node) (v : Int) (h : n.ty = T_INT) :
+    (n.setInt64 auto v).isSome = fits32 v := by
+  have hne : ¬ n.ty = T_INT64 := by rw [h]; decide
+  have hne0 : ¬ n.ty = T_NONE := by rw [h]; decide
+  rw [C07_set_int64, if_neg hne0, if_neg hne, if_pos h]
+  by_cases hf : fits32 v = true
+  · rw [if_pos hf, hf]; rfl
+  · rw [if_neg hf]; simp at hf; rw [hf]; rfl
+
+/-! ### a mismatching set leaves the setting unchanged; accessor families -/
+
+/-- `step` leaves the whole state unchanged when a set reports failure -/
+theorem C07_mismatch_atomic (s : State) (p : Path) (f : Node → Option Node) (n : Node)
+    (hn : s.cfg.root.get? p = some n) (hf : f n = none) : (setAt s p f).1 = s := by
+  unfold setAt; simp [hn, hf]
+
+/-- by-name lookup = member lookup followed by the direct accessor -/
+theorem C07_family_by_name (k : Kind) (auto : Bool) (n : Node) (nm : Bytes) :
+    lookupVal k auto n (some nm) = (getMember n nm).bind (fun m => typedGet k auto m.2) := by
+  unfold lookupVal
+  cases h : getMember n nm with
+  | none => simp [h]
+  | some m => obtain ⟨i, m⟩ := m; simp [h]
+
+/-- by-path lookup = path resolution followed by the direct accessor -/
+theorem C07_family_by_path (k : Kind) (c : Config) (path : Bytes) :
+    clookupVal k c path =
+      (lookupFrom c.root path).bind (fun q => (c.root.get? q).bind (typedGet k (c.opt OPT_AUTOCONVERT))) := by
+  unfold clookupVal; cases lookupFrom c.root path with
+  | none => rfl
+  | some q => cases hq : c.root.get? q <;> simp [hq]
+
+/-- non-vacuity: an int64 setting holding 2^31 is not readable as int, 5 is -/
+example : ({ ty := T_INT64, ival := 2147483648 } : Node).getInt true = none := by decide
+example : ({ ty := T_INT64, ival := 5 } : Node).getInt true = some 5 := by decide
+
 end Libconfig.C07
